@@ -26,7 +26,7 @@ def one(sid):
     subprocess.run(["git", "-C", "/repo", "worktree", "add", "-q", "--detach", w, "HEAD"], check=True)
     res = {"id": sid}
     try:
-        demo = re.sub(r"/tmp/wt2?/C\d\d", w, meta["demo"])
+        demo = re.sub(r"/tmp/wt\d?/C\d\d", w, meta["demo"])
         demo = demo.split("   #")[0].split("   (")[0]
         patch = os.path.join(d, "patch.diff")
         rc, out = sh("git apply %s" % patch, w)
